@@ -17,18 +17,21 @@ fn norm(cv: &CV) -> CV { crate::refsem::normalize_cv(cv) }
 
 const REJECTS: &[(&str, &str)] = &[
     ("x = [", "parse"), ("}", "parse"), ("y = = 3", "parse"), ("[1, 2", "parse"),
+    // rejected lines that are the first in the session to import a module (whatever the compiler cached for them must not leak)
+    ("[%lib2.k, zz_undefined]", "compile"), ("5 %lib2.inc zz_undefined_fn", "compile"), ("[4, 2] %int.div nope_undefined", "compile"), ("Cons[1, Nil] %list.head nope_undefined", "compile"),
     ("zz_undefined", "compile"), ("[1, 0x01] __integer_add__", "compile"), ("q = undefined_fn_ 3", "compile"), ("5 ='no_such_alias", "compile"),
 ];
 
 /// hand-written line material around the generated steps: aliases, functions over aliases, destructuring, shadowing, imports
 fn extra_lines(rng: &mut Rng, k: usize) -> Vec<String> {
     let t = format!("t{}", k);
-    match rng.below(6) {
+    match rng.below(7) {
         0 => vec![format!("'{} = A['int] | B['bin] | C", t), format!("f{} = #'{} {{ | =A[n] => n | =B[b] => b __binary_length__ | 0 }}", k, t), format!("[A[{}] f{}, B[0x0102] f{}, C f{}]", rng.range(0, 9), k, k, k)],
         1 => vec![format!("[a{}, b{}] = [{}, 0x0{}]", k, k, rng.range(0, 99), rng.below(9)), format!("[a{}, b{} __binary_length__] __integer_add__", k, k)],
         2 => vec![format!("s{} = {}", k, rng.range(0, 9)), format!("s{} = [s{}, s{}]", k, k, k), format!("s{} = [s{}.0, 1] __integer_add__", k, k), format!("s{}", k)],
         3 => vec![format!("m{} = %lib", k), format!("[m{}.k, 5 m{}.inc]", k, k), format!("(inc) = %lib, {} inc", rng.range(0, 9))],
         4 => vec![format!("c{} = {}", k, rng.range(1, 9)), format!("g{} = #'int {{ [~, c{}] __integer_multiply__ }}", k, k), format!("c{} = 100", k), format!("{} g{}", rng.range(0, 9), k)],
+        5 => vec![format!("[%lib2.k, {} %lib2.inc]", rng.range(0, 9)), format!("[{}, 2] %int.div", rng.range(2, 40)), "Cons[1, Cons[2, Nil]] %list.head".to_string()],
         _ => vec![format!("{}", rng.range(1, 50)), "[~, 1] __integer_add__".to_string(), "[~, ~]".to_string()],
     }
 }
@@ -39,6 +42,7 @@ pub fn check(rep: &Report) {
     let sessions = if quick { 15_000 } else { 400_000 };
     let mut modules: HashMap<Vec<String>, String> = HashMap::new();
     modules.insert(vec!["lib".into()], "[k: 7, inc: #'int { [~, 1] __integer_add__ }]".into());
+    modules.insert(vec!["lib2".into()], "[k: 0x0102, inc: #'int { [~, 2] __integer_add__ }]".into());
     let watch = crate::pool::Watch::new("C11", 60);
     crate::pool::run_indexed(sessions, 256, |j| {
         let mut rng = Rng::derive(rep.seed, "C11", 0, j as u64);
@@ -77,6 +81,8 @@ pub fn check(rep: &Report) {
                     // if the same text is also rejected as part of the whole program, fine; if the single program accepts it, the
                     // REPL and the compiler disagree on acceptance
                     let joined = if accepted.is_empty() { line.clone() } else { format!("{}\n{}", accepted.join("\n"), line) };
+                    // recorded finding: the REPL types the previous result with the nil a single program would have short-circuited on
+                    if qv::compile_with(&joined, Some(modules.clone()), &b).is_ok() && line.contains('~') && format!("{:?}", out).contains("| [])") { viol("previous-result-keeps-nil-in-its-type", format!("the REPL rejected {:?} ({:?}) although the previous result was not nil and the same lines compile as one program", line, out)); break; }
                     if qv::compile_with(&joined, Some(modules.clone()), &b).is_ok() && !line.starts_with('\'') { viol("repl-rejects-what-the-program-accepts", format!("the REPL rejected {:?} ({:?}) but the same lines compile as one program", line, out)); break; }
                     continue;
                 }
